@@ -30,11 +30,15 @@ TIERS = {
 FLOORS = {"quick": {"objects_of_a_class_with_slots": 1300, "rows_of_another_sheet_read_in_between_with_the_same_rules_object": 900,
                     "distinct_nontrivial": 1000, "objects_checked": 10000, "attribute_checks": 80000,
                     "ladder_cells_taken_from_above": 2000, "range_key_origins_checked": 8000,
-                    "optional_column_missing": 1000, "sheets_with_trailing_content": 1000},
+                    "optional_column_missing": 1000, "sheets_with_trailing_content": 1000,
+                    "objects_with_two_attributes_read_from_one_column": 1500,
+                    "origins_of_a_repeated_group_title_traced": 600},
           "thorough": {"objects_of_a_class_with_slots": 5300, "rows_of_another_sheet_read_in_between_with_the_same_rules_object": 3500,
                        "distinct_nontrivial": 50000, "objects_checked": 500000, "attribute_checks": 4000000,
                        "ladder_cells_taken_from_above": 100000, "range_key_origins_checked": 400000,
-                       "optional_column_missing": 50000, "sheets_with_trailing_content": 50000}}
+                       "optional_column_missing": 50000, "sheets_with_trailing_content": 50000,
+                       "objects_with_two_attributes_read_from_one_column": 30000,
+                       "origins_of_a_repeated_group_title_traced": 12000}}
 LEVEL_TEXT = ("Runtime exploration with a reference binding: the real reader runs over generated worksheets (own "
               "worksheet/cell mock) and every attribute of every object is traced back through the reported origin to "
               "the grid, and the origin itself is compared with the cell the harness' own binding selects.")
@@ -138,9 +142,13 @@ def gen_sheet(rng):
     rcols = ["m%d" % i for i in range(rng.randint(1, 3))] if spec['range_kind'] != 'none' else []
     if rcols and rng.random() < 0.15:
         rcols[rng.randrange(len(rcols))] = "*"      # (a column of the group is titled with an asterisk: 'all others')
+    if len(rcols) >= 2 and "*" not in rcols and rng.random() < 0.12:
+        # two columns of the group carry one and the same title (a sheet somebody pasted a column into)
+        rcols[-1] = rcols[0]
     numeric_titles = rng.random() < 0.3 and "*" not in rcols
     if numeric_titles:
         rcols = [str(2020 + i) for i in range(len(rcols))]   # title cells hold numbers (per-year columns)
+    spec['repeated_group_title'] = len(set(rcols)) < len(rcols)
     kn = [k[1] for k in KNOWN] + (['Opt'] if spec['have_opt'] else [])
     rng.shuffle(kn)
     if rng.random() < 0.5:
@@ -335,6 +343,9 @@ def expected_objects(spec):
             else:
                 val = {m: conv('str', v) for m, (v, _) in per_key.items()}
             o['marks'] = (val, {m: rc for m, (_, rc) in per_key.items()})
+            if spec.get('repeated_group_title'):
+                o['marks_candidates'] = {tm.get(m, m): [eff[c][1] for c, t in enumerate(titles) if t == m]
+                                         for m in spec['rcols'] if spec['rcols'].count(m) > 1}
         o['ext'] = (None, "<n/a>")
         if spec['have_opt']:
             v, rc = eff[tcol['Opt']]
@@ -353,6 +364,8 @@ def judge(ctx, spec, case):
     ctx.evaluated()
     grid = spec['grid']
     ws = WS("sh 1", grid)
+    if spec.get('repeated_group_title'):
+        ctx.count("sheets_with_a_title_repeated_inside_the_column_group")
     rules = make_rules(spec)
     obj_cls = {0: Obj0, 1: Obj, 2: Obj2}[spec.get('n_id', 1)]
     try:
@@ -389,6 +402,16 @@ def judge(ctx, spec, case):
                     except Exception as err:
                         problems.append(("origin-lookup-raises", {"attr": attr, "key": m, "msg": str(err)[:100]}))
                         continue
+                    if spec.get('repeated_group_title') and m in e.get('marks_candidates', {}):
+                        # two columns of the group carry this title: whichever of them the reader takes, the value
+                        # has to come from the cell it reports
+                        if coord(korg) not in e['marks_candidates'][m]:
+                            problems.append(("range-key-origin-differs-from-reference-binding",
+                                             {"object": idx, "attr": attr, "key": m, "origin": korg,
+                                              "expected_one_of": [name_of(x) for x in e['marks_candidates'][m]]}))
+                            continue
+                        rc = coord(korg)
+                        ctx.count("origins_of_a_repeated_group_title_traced")
                     if coord(korg) != rc:
                         problems.append(("range-key-origin-differs-from-reference-binding",
                                          {"object": idx, "attr": attr, "key": m, "origin": korg,
@@ -403,6 +426,8 @@ def judge(ctx, spec, case):
                         problems.append(("range-value-differs-from-cell-at-origin",
                                          {"object": idx, "key": m, "origin": korg, "cell": repr(cell_v),
                                           "value": repr(got_val.get(m))}))
+                if spec.get('repeated_group_title'):
+                    continue        # (no summary, no reference value: they depend on which of the two columns is taken)
                 names = sorted(name_of(rc) for rc in want_org.values())
                 summary = names[0] if len(names) == 1 else f"{names[0]}:{names[-1]}"
                 if org != summary:
@@ -533,7 +558,7 @@ def other_routes(ctx, spec, ws, obj_cls, rules, objs, problems):
     """the other public ways to read the same sheet must give the objects read_table gave (those were
     just compared with the reference binding)"""
     route = ("iter_table", "reader", "mixin", "map", "mixin_map", "multi", "mixin_child", "multi", "none",
-             "shared_rules", "slots")[ctx.counters.get("objects_checked", 0) % 11]
+             "shared_rules", "slots", "two_views")[ctx.counters.get("objects_checked", 0) % 12]
     kw = dict(stop_on=spec['stop_on'], ladder_format=spec['ladder'])
     defaults = spec['stop_on'] == "blank all" and not spec['ladder']
     try:
@@ -560,6 +585,31 @@ def other_routes(ctx, spec, ws, obj_cls, rules, objs, problems):
                         ctx.count("rows_of_another_sheet_read_in_between_with_the_same_rules_object")
                     except Exception:     # (StopIteration too: the mirrored sheet may be shorter or unreadable)
                         other_alive = False
+        elif route == "two_views":
+            # two attributes of one object are read from one and the same column (the text as it stands and the
+            # list made of it; the optional column twice): each is the conversion of that one cell
+            wide = type("TwoViews", (obj_cls,), {"_ATTRS": Obj._ATTRS + ['tags_text', 'opt_text']})
+            dflt = ({'default_val': 'D2'},)
+            rr = {'tags_text': ('Tags', X.cell_str), 'opt_text': ('Opt', X.cell_str) + dflt}
+            wide_rules = dict(list(rr.items()) + list(rules.items())) if len(objs) % 2 else dict(rules, **rr)
+            got = X.read_table(ws, wide, wide_rules, **kw)
+            for g in got:
+                if g is None:
+                    continue
+                ctx.count("objects_with_two_attributes_read_from_one_column")
+                for attr, twin, dv in (('tags_text', 'tags', None), ('opt_text', 'opt', 'D2')):
+                    org, org_twin = g.get_attr_origin(attr), g.get_attr_origin(twin)
+                    if org != org_twin:
+                        problems.append(("attributes-of-one-column-report-different-origins",
+                                         {"attr": attr, "origin": org, "other": twin, "other_origin": org_twin}))
+                        return
+                    rc = coord(org)
+                    want = dv if rc is None else conv('str', spec['grid'][rc[0]][rc[1]])
+                    if getattr(g, attr) != want:
+                        problems.append(("attribute-differs-from-cell-at-reported-origin",
+                                         {"attr": attr, "origin": org, "value": repr(getattr(g, attr))[:80],
+                                          "expected": repr(want)[:80]}))
+                        return
         elif route == "slots":
             # the application's class keeps its attributes in slots
             slotted = type("SlotObj", (obj_cls,), {"__slots__": tuple(Obj._ATTRS)})
